@@ -43,6 +43,23 @@ PROGRAMS = {
     "mod_dagger": "@guppy\ndef main() -> None:\n    with dagger:\n        pass\n",
     "mod_control": "@guppy\ndef main(q: qubit) -> None:\n    with control(q):\n        pass\n",
     "mod_power": "@guppy\ndef main() -> None:\n    with power({k}):\n        pass\n",
+    # --- more shapes of every gated feature (each pinned: accepted with the gate open, rejected with the gate's
+    # diagnostic when it is closed)
+ "closure_recursive": "@guppy\ndef main(n: int) -> int:\n    x = {k}\n    def inner(m: int) -> int:\n        if m <= 0:\n            return x\n        return inner(m - 1) + x\n    return inner(n)\n",
+    "closure_nested2": "@guppy\ndef main() -> int:\n    x = {k}\n    def outer() -> int:\n        def inner() -> int:\n            return x + 1\n        return inner()\n    return outer()\n",
+    "closure_in_branch": "@guppy\ndef main(c: bool) -> int:\n    x = {k}\n    if c:\n        def inner() -> int:\n            return x\n        return inner()\n    return 0\n",
+    "closure_two_caps": "@guppy\ndef main(a: int) -> int:\n    x = {k}\n    y = a + 1\n    def inner(z: int) -> int:\n        return x + y + z\n    return inner(1)\n",
+    "list_arg": "@guppy\ndef main() -> int:\n    return len([1, {k}, 3])\n",
+    "list_return": "@guppy\ndef main() -> list[int]:\n    return [1, {k}]\n",
+    "list_in_branch": "@guppy\ndef main(c: bool) -> int:\n    if c:\n        xs = [1, {k}]\n    return 1\n",
+    "list_nested_def": "@guppy\ndef main() -> int:\n    def inner(xs: list[int]) -> int:\n        return 1\n    return 2\n",
+    "list_comp_call": "@guppy\ndef main() -> int:\n    return len([i for i in range({k})])\n",
+    "tensor_in_call": "@guppy\ndef f(x: int) -> int:\n    return x + {k}\n\n@guppy\ndef g(x: int) -> int:\n    return x * 2\n\n@guppy\ndef h(a: int, b: int) -> int:\n    return a + b\n\n@guppy\ndef main() -> int:\n    a, b = (f, g)(1, {k})\n    return h(a, b)\n",
+    "mod_two": "@guppy\ndef main(q: qubit) -> None:\n    with dagger, control(q):\n        pass\n",
+    "mod_nested": "@guppy\ndef main(q: qubit) -> None:\n    with control(q):\n        with dagger:\n            pass\n",
+    "mod_in_loop": "@guppy\ndef main() -> None:\n    for i in range({k}):\n        with dagger:\n            pass\n",
+    "mod_in_nested_def": "@guppy\ndef main() -> None:\n    def inner() -> None:\n        with power({k}):\n            pass\n    inner()\n",
+    "mod_in_branch": "@guppy\ndef main(c: bool) -> None:\n    if c:\n        with dagger:\n            pass\n",
     # --- ungated control: nested non-capturing def, tuple, ordinary calls, loop
     "control": ("@guppy\ndef h(x: int) -> int:\n    return x * 2\n\n"
                 "@guppy\ndef main(a: int) -> tuple[int, int]:\n"
@@ -54,6 +71,10 @@ FAMILY = {"list_literal": "lists", "list_assign": "lists", "list_comp": "lists",
           "tensor_stmt": "tensors", "tensor_return": "tensors",
           "closure_local": "closures", "closure_arg": "closures",
           "mod_dagger": "modifiers", "mod_control": "modifiers", "mod_power": "modifiers",
+          "closure_recursive": "closures", "closure_nested2": "closures", "closure_in_branch": "closures",
+          "closure_two_caps": "closures", "list_arg": "lists", "list_return": "lists", "list_in_branch": "lists",
+          "list_nested_def": "lists", "list_comp_call": "lists", "tensor_in_call": "tensors", "mod_two": "modifiers",
+          "mod_nested": "modifiers", "mod_in_loop": "modifiers", "mod_in_nested_def": "modifiers", "mod_in_branch": "modifiers",
           "control": "control"}
 GATED = [f for f in PROGRAMS if f != "control"]
 
